@@ -208,7 +208,7 @@ CHECKS = {
          "HTML, Block::TermRef in roff). Model/Docs.v "
          "(extract_sections, collect_html, render_manpage document, render_html, Roff/escape/render_roff) is compared with the "
          "library on every run: documents token for token (cfg(bpaf_verif) capture hook), html and manpage byte for byte, plus "
-         "explicit balanced/unbalanced token lists through the renderer hooks. render_markdown is not modelled (oracle only).",
+         "explicit balanced/unbalanced token lists through the renderer hooks. render_markdown is modelled too (Model/Docs.v, byte-exact differential on every definition and explicit document; C16_render_markdown_succeeds: it returns for every parser).",
          "4/C16", "Rocq proof (roff control-line invariant, escape round-trips, HTML tag reader, nesting) + byte-exact differential of html/manpage + independent lexers"),
  "C04": ("proof", "PARTIAL. Theorems in coq/Props/C04.v: the ledger bound `remaining <= number of items` holds initially and is kept by "
          "the evaluation of every parser from every state (through Reach.eval_reach_all), the item list is never changed; with "
